@@ -21,6 +21,14 @@ CHECKS = {
          "Strings whose multi-byte characters straddle every chunk boundary (n around 254/255, 508/510), every attribute map of <=3 entries over 3 keys x 7 value shapes plus 253..300-byte entries, every raw string list up to 2 (3) strings over 8 atoms (duplicates, empty keys), every string up to length 6 (7) over the separator alphabet, and every byte length 0..=300 through all seven constructors are executed against the real code, both in memory and after crossing the wire, and compared with reference split/join/attribute models.",
          "Strings with an empty key are taken to be ignored per RFC 6763 6.4; only the wholly empty string is required to yield no attribute. Keys are non-empty.",
          "DESIGN.md section 3, C19"),
+ "C01": ("bounded-exhaustive enumeration of byte strings (prefix trees over reduced alphabets in four message regions, every cut and byte perturbation of valid reference messages of all 40 types, pointer graphs, all short buffers) through the real Packet::parse and header peeks under catch_unwind, an allocation meter and a watchdog",
+         "Every string up to length L over alphabets that contain each byte class the parsers branch on is placed in the question region, the record region, the RDATA of each of 42 type codes (with every RDLENGTH 0..=len+1) and after each field boundary of each type's canonical encoding; every truncation and every byte perturbation of ~1000 valid reference messages, all pointer graphs of k cells and every buffer of length <=9 (12) over {00,80,ff} for the eight peeks are parsed by the real code. Oracle: no panic (overflow checks on), returns before a 10 s watchdog, peak live heap <= 64 KiB + 512 B per input byte; full-size (65535-byte) worst-shape families add a 2 s time limit. All declared spaces are enumerated completely.",
+         "Inputs longer than the bounds are reached only through the structured families; the time claim is decided as 'terminates and is fast on the known worst shapes', not as a proven complexity bound. The allocation meter counts this thread's allocator traffic.",
+         "DESIGN.md section 3, C01"),
+ "C06": ("exhaustive enumeration of all buffers up to length 7 (8 thorough) over a 13-symbol alphabet decoded at every start offset by the real name decoder, plus pointer graphs, 63/255-byte boundary families and message-embedded sweeps, compared with an RFC 1035 4.1.4 reference decoder",
+         "Every (buffer, start offset) pair of the prefix tree (5.5e8 quick, 8e9 thorough), every graph of k cells (label, terminator, reserved type, overlapping label, pointer to any cell) from every start cell, and every label-length combination giving an expanded length 248..=260 directly or through a pointer is decoded by Name::parse (via the cfg hook) and by Packet::parse (as question, owner and RDATA name) and compared with an independent decoder: same labels, same resume cursor, label/name limits, rejection of cycles, outside pointers, reserved label types and over-long names, and acceptance of every name that decodes with backward pointers only.",
+         "Small-scope argument: the decoder's branches depend on label type bits, length vs remaining bytes, pointer target vs position, and the running expanded size; the alphabet has a member of each class and the bound lets two pointers and three labels interact. Forward pointers may be rejected.",
+         "DESIGN.md section 3, C06"),
 }
 NOT_YET = {}
 
